@@ -243,6 +243,13 @@ func deepVisit(fn *ssa.Function, visit func(inner, site ssa.Instruction)) {
 // helpers entered on the way to the arguments of the calls they were entered through (so that a
 // helper shared by several callers is read in the context of this caller).
 func deepVisitE(fn *ssa.Function, visit func(inner, site ssa.Instruction, env *venv)) {
+	deepVisitFrom(fn, nil, visit)
+}
+
+// deepVisitFrom starts in an environment (fn is itself reached through helpers whose parameters
+// are bound there) and also follows calls of function values that the environment resolves to a
+// function of the library: a step or filter handed down as an argument is read where it is called.
+func deepVisitFrom(fn *ssa.Function, env0 *venv, visit func(inner, site ssa.Instruction, env *venv)) {
 	seen := map[*ssa.Function]bool{fn: true}
 	var rec func(f *ssa.Function, site ssa.Instruction, env *venv, depth int)
 	rec = func(f *ssa.Function, site ssa.Instruction, env *venv, depth int) {
@@ -267,11 +274,26 @@ func deepVisitE(fn *ssa.Function, visit func(inner, site ssa.Instruction, env *v
 					}
 					rec(o, s, ne, depth+1)
 					delete(seen, o)
+				} else if sc == nil && !cc.IsInvoke() {
+					// a function value: a parameter bound in env, a captured variable of a closure
+					v, _ := normE(cc.Value, env, false)
+					if g := asFunc(v); g != nil && g.Blocks != nil && curProg != nil && curProg.InLib(g) && !seen[originOf(g)] {
+						o := originOf(g)
+						seen[o] = true
+						ne := &venv{bind: map[*ssa.Parameter]ssa.Value{}, outer: env}
+						for j := 0; j < len(cc.Args); j++ {
+							if par := cbParam(o, j); par != nil {
+								ne.bind[par] = cc.Args[j]
+							}
+						}
+						rec(o, s, ne, depth+1)
+						delete(seen, o)
+					}
 				}
 			}
 		})
 	}
-	rec(fn, nil, nil, 0)
+	rec(fn, nil, env0, 0)
 }
 
 // deepVisitC is deepVisitE that also enters the function literals nested in every function it
